@@ -1,5 +1,578 @@
 package rules
 
+import (
+	"fmt"
+	"go/types"
+	"os"
+	"regexp"
+	"strconv"
+	"strings"
+
+	"gldapverif/an"
+
+	"golang.org/x/tools/go/ssa"
+)
+
+// wnode is a node of the tree ber.ReadPacket would build from what an
+// encoder produced (engine E5, decode side of the control round trip).
+type wnode struct {
+	enc       *Node
+	children  []*wnode // visible after reading from the wire
+	hidden    []*wnode // children the encoder nested inside a primitive OCTET STRING
+	unwrapped bool     // decodeControl re-parsed Data and appended the result
+}
+
+func wireTree(n *Node) *wnode {
+	w := &wnode{enc: n}
+	for _, c := range n.Children {
+		if c.N == nil || c.N.Opaque != "" || c.Repeat != "" {
+			continue
+		}
+		cw := wireTree(c.N)
+		if n.Type == "p" { // primitive with nested encoding: opaque bytes on the wire
+			w.hidden = append(w.hidden, cw)
+		} else {
+			w.children = append(w.children, cw)
+		}
+	}
+	return w
+}
+
+func (w *wnode) kids() []*wnode {
+	if w.unwrapped {
+		return w.hidden
+	}
+	return w.children
+}
+
+// valueKind: dynamic type of Packet.Value after ber.ReadPacket (library fact:
+// universal primitive BOOLEAN -> bool, INTEGER/ENUMERATED -> int64, OCTET STRING -> string; everything else nil).
+func (w *wnode) valueKind() string {
+	if w.unwrapped {
+		return "nil" // decodeControl sets value.Value = nil when it unwraps
+	}
+	n := w.enc
+	if n.Class != "UNIV" || n.Type != "p" {
+		return "nil"
+	}
+	switch n.Tag {
+	case "BOOL":
+		return "bool"
+	case "INT", "ENUM":
+		return "int64"
+	case "OCTSTR":
+		return "string"
+	}
+	return "nil"
+}
+
+var rePathStep = regexp.MustCompile(`^\.Children\[(\d+)\]`)
+
+// resolve walks a decode-side path expression "$0.Children[1].Children[0]" in the wire tree.
+func (w *wnode) resolve(expr string) *wnode {
+	if !strings.HasPrefix(expr, "$0") {
+		return nil
+	}
+	rest := expr[2:]
+	cur := w
+	for rest != "" {
+		if strings.HasPrefix(rest, ".Children[*]") {
+			// the symbolic element of a range over the children: exact when there is exactly one child
+			ks := cur.kids()
+			if len(ks) != 1 {
+				return nil
+			}
+			cur = ks[0]
+			rest = rest[len(".Children[*]"):]
+			continue
+		}
+		m := rePathStep.FindStringSubmatch(rest)
+		if m == nil {
+			return nil
+		}
+		i, _ := strconv.Atoi(m[1])
+		ks := cur.kids()
+		if i >= len(ks) {
+			return nil
+		}
+		cur = ks[i]
+		rest = rest[len(m[0]):]
+	}
+	return cur
+}
+
+var (
+	reLenCond   = regexp.MustCompile(`^(<|<=|>|>=|==|!=)\(len\((\$0[^()]*)\.Children\),(\d+)\)$`)
+	reLenCondR  = regexp.MustCompile(`^(<|<=|>|>=|==|!=)\((\d+),len\((\$0[^()]*)\.Children\)\)$`)
+	reOkCond    = regexp.MustCompile(`^assert\((\$0[^()]*)\.Value,(\w+)\)#1$`)
+	reIdentCond = regexp.MustCompile(`^==\((\$0[^()]*)\.Identifier\.(Tag|ClassType|TagType),(\d+)\)$`)
+	reIdentCnd2 = regexp.MustCompile(`^==\((\d+),(\$0[^()]*)\.Identifier\.(Tag|ClassType|TagType)\)$`)
+	reStrEq     = regexp.MustCompile(`^==\(assert\((\$0[^()]*)\.Value,string\)#0,("[^"]*")\)$`)
+	reStrEq2    = regexp.MustCompile(`^==\(("[^"]*"),assert\((\$0[^()]*)\.Value,string\)#0\)$`)
+	reValNil    = regexp.MustCompile(`^==\((\$0[^()]*)\.Value,nil(?::[^)]*)?\)$`)
+	reValNil2   = regexp.MustCompile(`^==\(nil(?::[^,]*)?,(\$0[^()]*)\.Value\)$`)
+)
+
+func cmpInt(a int, op string, b int) bool {
+	switch op {
+	case "<":
+		return a < b
+	case "<=":
+		return a <= b
+	case ">":
+		return a > b
+	case ">=":
+		return a >= b
+	case "==":
+		return a == b
+	case "!=":
+		return a != b
+	}
+	return false
+}
+
+var tagNums = map[string]int{"BOOL": 1, "INT": 2, "OCTSTR": 4, "NULL": 5, "ENUM": 10, "SEQ": 16, "SET": 17}
+var classNums = map[string]int{"UNIV": 0, "APP": 64, "CTX": 128, "PRIV": 192}
+var typeNums = map[string]int{"p": 0, "c": 32}
+
+// controlOracle decides decodeControl's branches from the wire tree.
+func controlOracle(root *wnode) func(f *frame, iff *ssa.If) int {
+	return func(f *frame, iff *ssa.If) int {
+		cs := f.condString(iff.Cond)
+		neg := false
+		for strings.HasPrefix(cs, "!") && !strings.HasPrefix(cs, "!=(") {
+			cs = cs[1:]
+			neg = !neg
+		}
+		// a != b  ->  !(a == b)
+		if strings.HasPrefix(cs, "!=(") {
+			cs = "==(" + cs[3:]
+			neg = !neg
+		}
+		val, known := false, false
+		if m := reLenCond.FindStringSubmatch(cs); m != nil {
+			if n := root.resolve(m[2]); n != nil {
+				k, _ := strconv.Atoi(m[3])
+				val, known = cmpInt(len(n.kids()), m[1], k), true
+			}
+		} else if m := reLenCondR.FindStringSubmatch(cs); m != nil {
+			if n := root.resolve(m[3]); n != nil {
+				k, _ := strconv.Atoi(m[2])
+				val, known = cmpInt(k, m[1], len(n.kids())), true
+			}
+		} else if m := reOkCond.FindStringSubmatch(cs); m != nil {
+			if n := root.resolve(m[1]); n != nil {
+				val, known = n.valueKind() == m[2], true
+			}
+		} else if m := reIdentCond.FindStringSubmatch(cs); m != nil {
+			if n := root.resolve(m[1]); n != nil {
+				k, _ := strconv.Atoi(m[3])
+				val, known = identOf(n, m[2]) == k, identOf(n, m[2]) >= 0
+			}
+		} else if m := reIdentCnd2.FindStringSubmatch(cs); m != nil {
+			if n := root.resolve(m[2]); n != nil {
+				k, _ := strconv.Atoi(m[1])
+				val, known = identOf(n, m[3]) == k, identOf(n, m[3]) >= 0
+			}
+		} else if m := reStrEq.FindStringSubmatch(cs); m != nil {
+			if n := root.resolve(m[1]); n != nil {
+				val, known = n.enc.Value == m[2], true
+			}
+		} else if m := reStrEq2.FindStringSubmatch(cs); m != nil {
+			if n := root.resolve(m[2]); n != nil {
+				val, known = n.enc.Value == m[1], true
+			}
+		} else if m := reValNil.FindStringSubmatch(cs); m != nil {
+			if n := root.resolve(m[1]); n != nil {
+				val, known = n.valueKind() == "nil", true
+			}
+		} else if m := reValNil2.FindStringSubmatch(cs); m != nil {
+			if n := root.resolve(m[1]); n != nil {
+				val, known = n.valueKind() == "nil", true
+			}
+		} else if strings.HasPrefix(cs, "==(") {
+			// nil test of a local that holds a tree node
+			inner, _ := an.Not(iff.Cond)
+			if x, trueMeansNil, ok := an.NilCheck(inner); ok {
+				sx := f.sym(x)
+				if strings.HasPrefix(sx, "$0") && root.resolve(sx) != nil {
+					val, known = trueMeansNil == false && false || trueMeansNil && false, true
+					// x is non-nil: the un-negated BinOp is true iff it is a != test
+					val = !trueMeansNil
+					cs = ""
+					neg = false
+					_, n2 := an.Not(iff.Cond)
+					if n2 {
+						val = !val
+					}
+				}
+			}
+		}
+		if !known {
+			if os.Getenv("GLDAPCHECK_ORACLE") != "" {
+				fmt.Println("   oracle undecided:", f.condString(iff.Cond), "at", f.c.pos(iff))
+			}
+			return -1
+		}
+		if neg {
+			val = !val
+		}
+		if os.Getenv("GLDAPCHECK_ORACLE") == "2" {
+			fmt.Println("   oracle:", f.condString(iff.Cond), "=>", val, "at", f.c.pos(iff))
+		}
+		if val {
+			return 0
+		}
+		return 1
+	}
+}
+
+func identOf(n *wnode, which string) int {
+	switch which {
+	case "Tag":
+		if k, err := strconv.Atoi(n.enc.Tag); err == nil {
+			return k
+		}
+		if k, ok := tagNums[n.enc.Tag]; ok {
+			return k
+		}
+	case "ClassType":
+		if k, ok := classNums[n.enc.Class]; ok {
+			return k
+		}
+	case "TagType":
+		if k, ok := typeNums[n.enc.Type]; ok {
+			return k
+		}
+	}
+	return -1
+}
+
+// controlOnCall models `value.AppendChild(ber.DecodePacketErr(value.Data.Bytes()))`.
+func controlOnCall(root *wnode) func(f *frame, x *ssa.Call) bool {
+	return func(f *frame, x *ssa.Call) bool {
+		cc := x.Common()
+		if an.CalleeIs(cc, an.PkgBer, "(*Packet).AppendChild") {
+			parent := strings.TrimPrefix(f.sym(cc.Args[0]), "&")
+			child := f.sym(cc.Args[1])
+			if os.Getenv("GLDAPCHECK_ORACLE") != "" {
+				fmt.Println("   AppendChild parent=", parent, "child=", child)
+			}
+			if n := root.resolve(parent); n != nil && strings.Contains(child, "DecodePacketErr("+"github.com/go-asn1-ber/asn1-ber.(*Packet)") || strings.Contains(child, "DecodePacketErr(bytes.(*Buffer).Bytes("+parent+".Data))") {
+				if n != nil {
+					n.unwrapped = true
+				}
+				return true
+			}
+			if n := root.resolve(parent); n != nil && strings.Contains(child, "DecodePacketErr(") && strings.Contains(child, parent+".Data") {
+				n.unwrapped = true
+				return true
+			}
+		}
+		return false
+	}
+}
+
+var (
+	reAssertVal = regexp.MustCompile(`assert\((\$0(?:\.Children\[(?:\d+|\*)\])*)\.Value,(string|int64|bool)\)#0`)
+	reDataBytes = regexp.MustCompile(`bytes\.\(\*Buffer\)\.Bytes\((\$0(?:\.Children\[(?:\d+|\*)\])*)\.Data\)`)
+	reParseInt  = regexp.MustCompile(`github\.com/go-asn1-ber/asn1-ber\.ParseInt64\(intenc\(([^()]*)\)\)#0`)
+	reInt8Byte  = regexp.MustCompile(`conv<int8>\(intenc\(([^()]*)\)\[0\]\)`)
+	reDecodeStr = regexp.MustCompile(`github\.com/go-asn1-ber/asn1-ber\.DecodeString\(bytes\(([^()]*)\)\)`)
+	reParseFmt  = regexp.MustCompile(`strconv\.ParseInt\(strconv\.FormatInt\(([^(),]*),10\),10,64\)#0`)
+	reConvConv  = regexp.MustCompile(`conv<(\w+)>\(conv<(\w+)>\((\$0\.[A-Za-z]+)\)\)`)
+	reConvSame  = regexp.MustCompile(`conv<int64>\((\$0\.(?:expire|grace))\)`)
+)
+
+// backSubstitute rewrites a decode-side expression into what it evaluates to
+// given the encoder's tree, using the recognised inverse pairs.
+func backSubstitute(expr string, root *wnode) (string, []string) {
+	var notes []string
+	expr = reAssertVal.ReplaceAllStringFunc(expr, func(m string) string {
+		sm := reAssertVal.FindStringSubmatch(m)
+		n := root.resolve(sm[1])
+		if n == nil {
+			notes = append(notes, "reads "+sm[1]+" which the encoder does not produce")
+			return m
+		}
+		if n.valueKind() != sm[2] {
+			notes = append(notes, fmt.Sprintf("asserts %s at %s but the wire value is %s", sm[2], sm[1], n.valueKind()))
+			return m
+		}
+		return n.enc.Value
+	})
+	expr = reDataBytes.ReplaceAllStringFunc(expr, func(m string) string {
+		sm := reDataBytes.FindStringSubmatch(m)
+		n := root.resolve(sm[1])
+		if n == nil {
+			notes = append(notes, "reads "+sm[1]+" which the encoder does not produce")
+			return m
+		}
+		for _, w := range n.enc.Writes {
+			if strings.HasPrefix(w, "Data.Write(") {
+				return strings.TrimSuffix(strings.TrimPrefix(w, "Data.Write("), ")")
+			}
+		}
+		switch n.enc.Ctor {
+		case "NewString":
+			return "bytes(" + n.enc.Value + ")"
+		case "NewInteger":
+			return "intenc(" + n.enc.Value + ")"
+		}
+		return m
+	})
+	for i := 0; i < 4; i++ {
+		expr = reParseInt.ReplaceAllString(expr, "conv<int64>($1)")
+		expr = reInt8Byte.ReplaceAllString(expr, "conv<int8>($1)")
+		// DecodeString(bytes(X)) == X
+		expr = replaceBalanced(expr, "github.com/go-asn1-ber/asn1-ber.DecodeString", func(arg string) (string, bool) {
+			if strings.HasPrefix(arg, "bytes(") && strings.HasSuffix(arg, ")") {
+				return arg[len("bytes(") : len(arg)-1], true
+			}
+			return "", false
+		})
+		// ParseInt(FormatInt(X,10),10,64)#0 == X
+		expr = replaceBalanced(expr, "strconv.ParseInt", func(arg string) (string, bool) {
+			const pre, suf = "strconv.FormatInt(", ",10),10,64"
+			if strings.HasPrefix(arg, pre) && strings.HasSuffix(arg, suf) {
+				return arg[len(pre) : len(arg)-len(suf)], true
+			}
+			return "", false
+		})
+		expr = strings.ReplaceAll(expr, "#0#0", "#0")
+	}
+	// a successfully inverted ParseInt leaves a dangling "#0" selector
+	expr = regexp.MustCompile(`(\$0\.[A-Za-z]+)#0`).ReplaceAllString(expr, "$1")
+	return expr, notes
+}
+
+// replaceBalanced rewrites every `head(arg)` (arg with balanced parentheses)
+// through f; f returns the replacement for the whole call.
+func replaceBalanced(expr, head string, f func(arg string) (string, bool)) string {
+	from := 0
+	for {
+		i := strings.Index(expr[from:], head+"(")
+		if i < 0 {
+			return expr
+		}
+		i += from
+		start := i + len(head) + 1
+		depth := 1
+		end := -1
+		for p := start; p < len(expr); p++ {
+			if expr[p] == '(' {
+				depth++
+			} else if expr[p] == ')' {
+				depth--
+				if depth == 0 {
+					end = p
+					break
+				}
+			}
+		}
+		if end < 0 {
+			return expr
+		}
+		if rep, ok := f(expr[start:end]); ok {
+			expr = expr[:i] + rep + expr[end+1:]
+			from = i
+		} else {
+			from = start
+		}
+	}
+}
+
+// valuePreserving: conv<A>(conv<B>(x)) where x has type A and B is wider; conv<T>(x) where x already has type T.
+func dropIdentityConvs(expr string, fieldType map[string]string) string {
+	for i := 0; i < 4; i++ {
+		expr = reConvConv.ReplaceAllStringFunc(expr, func(m string) string {
+			sm := reConvConv.FindStringSubmatch(m)
+			ft := fieldType[sm[3]]
+			if ft == sm[1] && widerThan(sm[2], sm[1]) {
+				return sm[3]
+			}
+			return m
+		})
+		// conv<T>(x) where x is of type T
+		expr = regexp.MustCompile(`conv<(\w+)>\((\$0\.[A-Za-z]+)\)`).ReplaceAllStringFunc(expr, func(m string) string {
+			sm := regexp.MustCompile(`conv<(\w+)>\((\$0\.[A-Za-z]+)\)`).FindStringSubmatch(m)
+			if fieldType[sm[2]] == sm[1] {
+				return sm[2]
+			}
+			return m
+		})
+	}
+	return expr
+}
+
+func widerThan(a, b string) bool {
+	rank := map[string]int{"int8": 1, "uint8": 1, "int16": 2, "uint16": 2, "int32": 3, "uint32": 3, "int": 4, "int64": 4, "uint64": 4}
+	if a == "int64" && (b == "uint32" || b == "int32" || b == "int16" || b == "int8" || b == "uint8" || b == "uint16") {
+		return true
+	}
+	return rank[a] > rank[b] && (strings.HasPrefix(a, "u") == strings.HasPrefix(b, "u"))
+}
+
 func (c *Ctx) checkControlRoundTrip(refs map[string]func(val map[string]bool) string) {
-	c.R.NotDecided = append(c.R.NotDecided, "C14-roundtrip composition (not built yet)")
+	R := c.R
+	dec := c.fn(G, "decodeControl")
+	if dec == nil {
+		return
+	}
+	nTrips := 0
+	for _, typ := range sortedKeys(refs) {
+		enc := c.fn(G, "(*"+typ+").Encode")
+		if enc == nil {
+			continue
+		}
+		// static types of the control's fields
+		fieldType := map[string]string{}
+		if nt := c.P.NamedType(G, typ); nt != nil {
+			if st, ok := nt.Underlying().(interface {
+				NumFields() int
+			}); ok {
+				_ = st
+			}
+		}
+		for _, f := range c.structFields(typ) {
+			fieldType["$0."+f[0]] = f[1]
+		}
+		vs, atoms := c.shapeVariants(enc)
+		for _, v := range vs {
+			key := "(*" + typ + ") encode->decode"
+			if len(atoms) > 0 {
+				key += " [" + sortedVals(v.Val) + "]"
+			}
+			if v.Res.result == nil {
+				R.Unknown("C14-roundtrip", key, c.P.Pos(enc.Pos()), "no encoder tree")
+				continue
+			}
+			// Behera: the constructor guarantees at most one of grace/expire/error is set
+			if typ == "ControlBeheraPasswordPolicy" {
+				set := 0
+				for a, b := range v.Val {
+					if strings.HasPrefix(a, "<($0.") && !b {
+						set++
+					}
+				}
+				if set > 1 {
+					continue
+				}
+			}
+			if os.Getenv("GLDAPCHECK_ORACLE") != "" {
+				fmt.Println("== roundtrip", key, "tree", v.Shape)
+			}
+			encTree := v.Res.result
+			paths, complete := c.guidedPathsF(dec, &symEnv{}, map[string]bool{}, 64, func() (func(f *frame, iff *ssa.If) int, func(f *frame, x *ssa.Call) bool, any) {
+				rt := wireTree(encTree)
+				return controlOracle(rt), controlOnCall(rt), rt
+			})
+			if !complete || len(paths) == 0 {
+				R.Unknown("C14-roundtrip", key, c.P.Pos(dec.Pos()), sprintf("decodeControl has %d success paths for this tree (complete=%v)", len(paths), complete))
+				continue
+			}
+			nTrips++
+			bad := ""
+			detail := ""
+			for _, p := range paths {
+				root := p.State.(*wnode)
+				r := p.Res
+				if r.undec != "" || k(r) == nil || len(r.retExpr) < 1 {
+					bad = "a success path cannot be interpreted: " + r.undec
+					break
+				}
+				got := ptrNamed(an.Strip(an.ReturnResults(k(r))[0]).Type())
+				if got != typ {
+					bad = "decodeControl returns a *" + got
+					break
+				}
+				fields := map[string]string{}
+				if strings.HasPrefix(r.retExpr[0], "&alloc:") {
+					r.fr.fieldsOf(r.retExpr[0][1:], "", fields, 0)
+				}
+				for _, f := range c.structFields(typ) {
+					name := f[0]
+					if name == "MustChange" || name == "errorString" {
+						continue
+					}
+					gotE, has := fields[name]
+					if !has {
+						gotE = "zero"
+					}
+					back, notes := backSubstitute(gotE, root)
+					back = dropIdentityConvs(back, fieldType)
+					want := "$0." + name
+					ok := back == want || valueFixedByPath(name, back, v.Val, typ)
+					if !ok || len(notes) > 0 {
+						bad = sprintf("field %s comes back as %s (decoder reads %s)%s", name, back, gotE, map[bool]string{true: "; " + strings.Join(notes, "; "), false: ""}[len(notes) > 0])
+					} else {
+						detail += name + " "
+					}
+				}
+			}
+			R.Check(bad == "", "C14-roundtrip", key, c.P.Pos(dec.Pos()), "decodeControl on the encoder's tree returns *"+typ+" with every field traced back to the node that carried it: "+strings.TrimSpace(detail), "the control does not survive encode->decode: "+bad)
+		}
+	}
+	R.Count("C14-roundtrip/trips", nTrips)
+	R.Floor("C14-roundtrip", 12)
+}
+
+// structFields lists (name, type string) of a gldap struct's fields.
+func (c *Ctx) structFields(typ string) [][2]string {
+	nt := c.P.NamedType(G, typ)
+	if nt == nil {
+		return nil
+	}
+	var out [][2]string
+	type fielder interface {
+		NumFields() int
+	}
+	if st, ok := nt.Underlying().(fielder); ok {
+		_ = st
+	}
+	s, _ := nt.Underlying().(*types.Struct)
+	if s == nil {
+		return nil
+	}
+	for i := 0; i < s.NumFields(); i++ {
+		t := s.Field(i).Type().String()
+		if j := strings.LastIndex(t, "."); j >= 0 {
+			t = t[j+1:]
+		}
+		out = append(out, [2]string{s.Field(i).Name(), t})
+	}
+	return out
+}
+
+// valueFixedByPath: the encoder did not carry the field on this path because
+// the path condition fixes its value, and the decoder produced exactly that value.
+func valueFixedByPath(field, got string, val map[string]bool, typ string) bool {
+	has := func(sub string) (bool, bool) {
+		for a, b := range val {
+			if strings.Contains(a, sub) {
+				return b, true
+			}
+		}
+		return false, false
+	}
+	switch field {
+	case "Criticality":
+		if b, ok := has("$0.Criticality"); ok && !b {
+			return got == "false" || got == "zero" || got == "opt(withCriticality)"
+		}
+	case "ControlValue":
+		if b, ok := has(`==("",$0.ControlValue)`); ok && b {
+			return got == `""` || got == "zero"
+		}
+	case "grace", "expire", "error":
+		// not encoded when unset (< 0): decoder leaves the constructor default -1
+		if b, ok := has("<($0." + field + ",0)"); ok && b {
+			return strings.Contains(got, "-1")
+		}
+		// shadowed by an earlier arm of the encoder's switch: the constructor guarantees it is -1 then
+		if b, ok := has("<($0." + field + ",0)"); ok && !b {
+			return strings.Contains(got, "-1")
+		}
+	}
+	return false
 }
